@@ -1623,6 +1623,30 @@ pos("C08", "allretained-skips-own-message", "the '#' walk collects the children'
     ["C08/P4-loop-contract/allRetained:collects-own-message"])
 
 
+# ---------------------------------------------------------------- rules of seeded round 6
+WFWS_LOOP = "		for cpos = bf.cseq.get(); wrap > cpos; cpos = bf.cseq.get() {"
+for prop in ("C14", "C15"):
+    pos(prop, "space-wait-at-exact-boundary", "the producer keeps waiting when the consumer has freed exactly the room it needs",
+        [(BUF, WFWS_LOOP, "		for cpos = bf.cseq.get(); wrap >= cpos; cpos = bf.cseq.get() {")],
+        [prop + "/B11-ring-space-accounting/waitForWriteSpace:wait(pcond)#1:waits-only-when-it-must"])
+pos("C15", "readwait-waits-with-enough-data", "ReadWait keeps waiting when exactly the bytes asked for are there",
+    [(BUF, "	for ppos = bf.pseq.get(); next > ppos; ppos = bf.pseq.get() {", "	for ppos = bf.pseq.get(); next >= ppos; ppos = bf.pseq.get() {")],
+    ["C15/B11-ring-space-accounting/ReadWait:wait(ccond)#1:waits-only-when-it-must"])
+pos("C16", "tls-listener-recorded-in-plain-field", "ListenAndServeTLS records its listener in the field of the plain listener",
+    [(SRV, "	svr.lntls, err = tls.Listen(u.Scheme, u.Host, cfg)\n	if err != nil {\n		return err\n	}\n	defer svr.lntls.Close()", "	svr.ln, err = tls.Listen(u.Scheme, u.Host, cfg)\n	if err != nil {\n		return err\n	}\n	svr.lntls = svr.ln\n	defer svr.lntls.Close()")],
+    ["C16/P9-who-may/Server.ln:one-listener-per-field"])
+pos("C12", "suback-mismatch-reports-and-falls-through", "the count-mismatch exit of the SUBACK closure reports and then falls through to the normal completion",
+    [(SVC, "				return onComplete(msg, ack, fmt.Errorf(\"Incorrect number of return codes received. Expecting %d, got %d\", len(topics), len(retcodes)))\n			}\n			return nil\n		}", "				onComplete(msg, ack, fmt.Errorf(\"Incorrect number of return codes received. Expecting %d, got %d\", len(topics), len(retcodes)))\n			}\n			retcodes = retcodes[:0]\n			topics = topics[:0]\n		}")],
+    ["C12/P2-case-contract/client-subscribe:completion-at-most-once"])
+for prop in ("C20", "C01"):
+    pos(prop, "retain-error-ends-delivery", "a failing retained-store update ends onPublish before the subscribers are looked up",
+        [(PROC, "		if err := p.topicsMgr.Retain(msg); err != nil {\n			log.Warningf(\"(%s) Un-/Retaining of message failed: %v\", p.cid(), err)\n		}", "		if err := p.topicsMgr.Retain(msg); err != nil {\n			log.Warningf(\"(%s) Un-/Retaining of message failed: %v\", p.cid(), err)\n			return err\n		}")],
+        [prop + "/P2-case-contract/onPublish:fan-out:lookup-on-every-path"])
+pos("C07", "suback-len-header-length-through-helper", "Len takes the header length in a helper before it sets the remaining length",
+    [(SA, "	ml := m.msglen()\n\n	if err := m.SetRemainingLength(int32(ml)); err != nil {\n		return 0\n	}\n\n	return m.header.msglen() + ml\n}\n\n// Decode decodes the message.", "	hl, ml := m.sizes()\n\n	if err := m.SetRemainingLength(int32(ml)); err != nil {\n		return 0\n	}\n\n	return hl + ml\n}\n\nfunc (m *SubackMessage) sizes() (int, int) {\n	return m.header.msglen(), m.msglen()\n}\n\n// Decode decodes the message.")],
+    ["C07/T3-dirty-discipline/(*message.SubackMessage).Len:header-length-after-remaining-length"])
+
+
 def main():
     os.makedirs(OUT, exist_ok=True)
     for prop, cs in sorted(C.items()):
